@@ -107,6 +107,122 @@ def c20_rotate(max_bytes: int, backup_count: int, w0: str, w1: str, w2: str, w3:
         undo()
 
 
+def c20_deep(max_bytes: int, backup_count: int, pre: int) -> bool:
+    """
+    Many generations: backup_count up to 12 (two-digit backup numbers), optionally with `pre` backups already on disk,
+    then 15 one-character writes with max_bytes 2 or 3 (a rollover at every write, or every second one); the layout
+    invariant is checked after every write.
+
+    pre: 2 <= max_bytes <= 3 and 8 <= backup_count <= 12 and 0 <= pre <= 12 and pre <= backup_count
+    post: _
+    """
+    backup_count = rt.pick(backup_count, 13)
+    pre = rt.pick(pre, 13)
+    max_bytes = rt.pick(max_bytes, 4)
+    fs = fsfake.FakeFS()
+    undo = fsfake.install(fs)
+    try:
+        # data already on disk: backup .pre is the oldest (index -pre), .1 the newest (index -1); the active file is empty
+        for i in range(pre, 0, -1):
+            fs.files['%s.%d' % (NAME, i)] = [(-i, 'o')]
+        fs.files[NAME] = []
+        fs.windex = 0
+        from circus.stream.file_stream import FileStream
+        st = FileStream(filename=NAME, max_bytes=max_bytes, backup_count=backup_count)
+        payloads = ['x'] * 15
+        ok = True
+        for k, w in enumerate(payloads):
+            st({'data': w, 'pid': 7, 'name': 'stdout'})
+            allowed = [NAME] + ['%s.%d' % (NAME, i) for i in range(1, backup_count + 1)]
+            seq = []
+            for i in range(backup_count, 0, -1):
+                n = '%s.%d' % (NAME, i)
+                if n in fs.files:
+                    seq.extend(fs.files[n])
+            seq.extend(fs.files.get(NAME, []))
+            idxs = [i for i, _s in seq]
+            good = all(n in allowed for n in fs.files) and NAME in fs.files and fs.size(NAME) < max_bytes and not fs.lost
+            good = good and bool(idxs) and idxs[-1] == k and all(y == x + 1 for x, y in zip(idxs, idxs[1:]))
+            if not good:
+                rt.note('backup_count %d, %d old backups, max_bytes %d: after write %d the retained indices are %r (files %r)', backup_count, pre,
+                        max_bytes, k, idxs, sorted(fs.files))
+                ok = False
+                break
+        return rt.verdict(ok)
+    finally:
+        undo()
+
+
+UNITS = (b'a', 'e\u0301'.encode('utf-8'), '\u20ac'.encode('utf-8'))        # 1, 3 (e + combining accent) and 3 (euro sign) bytes
+
+
+def c20_bytes(max_bytes: int, u0: int, k0: int, u1: int, k1: int, u2: int, k2: int, u3: int, k3: int) -> bool:
+    """
+    Sizes are BYTES: the redirector hands the stream the bytes read from the pipe, the file grows by their UTF-8 length.
+    Four writes of 1 or 3 repetitions of a unit (ASCII letter / a 3-byte character), each write shorter than max_bytes
+    in bytes; the file model counts UTF-8 bytes.
+
+    pre: 0 <= u0 <= 1 and 0 <= u1 <= 1 and 0 <= u2 <= 1 and 0 <= u3 <= 1
+    pre: 0 <= k0 <= 1 and 0 <= k1 <= 1 and 0 <= k2 <= 1 and 0 <= k3 <= 1
+    pre: max_bytes > 9
+    post: _
+    """
+    writes = [(UNITS[0], UNITS[2])[rt.pick(u, 2)] * (1, 3)[rt.pick(k, 2)] for u, k in ((u0, k0), (u1, k1), (u2, k2), (u3, k3))]
+    fs, st, undo = _mk(max_bytes, 2)
+    fs.byte_sizes = True
+    try:
+        ok = True
+        for i, raw in enumerate(writes):
+            st({'data': raw, 'pid': 7, 'name': 'stdout'})
+            if not (fs.size(NAME) < max_bytes):
+                rt.note('after write %d (%d bytes) the active file holds %d bytes, max_bytes %d', i, len(raw), fs.size(NAME), max_bytes)
+                ok = False
+                break
+        text = ''.join(s for n in ('%s.2' % NAME, '%s.1' % NAME, NAME) if n in fs.files for _i, s in fs.files[n])
+        if ok and not b''.join(writes).decode('utf-8').endswith(text):
+            rt.note('retained text is not a tail of what was written')
+            ok = False
+        return rt.verdict(ok)
+    finally:
+        undo()
+
+
+TIMED_LENS = (1, 7, 20)
+
+
+def c20_timed_rotate(max_bytes: int, backup_count: int, n0: int, n1: int, n2: int) -> bool:
+    """
+    Rotation WITH a time_format: what reaches the file is the prefixed line, so that is what must stay below max_bytes.
+    Three single-line payloads of lengths chosen from TIMED_LENS; max_bytes is any integer for which every line
+    (15-character prefix + payload + newline) is smaller than it.  (That the line has exactly this shape is c20_prefix.)
+
+    pre: 1 <= backup_count <= 2
+    pre: 0 <= n0 < len(TIMED_LENS) and 0 <= n1 < len(TIMED_LENS) and 0 <= n2 < len(TIMED_LENS)
+    pre: max_bytes > 16 + max(TIMED_LENS[n0], TIMED_LENS[n1], TIMED_LENS[n2])
+    post: _
+    """
+    lens = [TIMED_LENS[rt.pick(n, len(TIMED_LENS))] for n in (n0, n1, n2)]
+    payloads = ['a' * n for n in lens]
+    fs, st, undo = _mk(max_bytes, backup_count, time_format='%H:%M:%S')
+    try:
+        st.now = lambda: _T0
+        ok = True
+        for k, w in enumerate(payloads):
+            st({'data': w, 'pid': 7, 'name': 'stdout'})
+            if not (fs.size(NAME) < max_bytes):
+                rt.note('after write %d the active file holds %d characters, max_bytes %d (line length %d)', k, fs.size(NAME), max_bytes,
+                        16 + len(w))
+                ok = False
+                break
+            allowed = [NAME] + ['%s.%d' % (NAME, i) for i in range(1, backup_count + 1)]
+            if [n for n in fs.files if n not in allowed] or fs.lost:
+                ok = False
+                break
+        return rt.verdict(ok)
+    finally:
+        undo()
+
+
 def c20_step(max_bytes: int, backup_count: int, a: str, b1: str, b2: str, b3: str,
              e1: bool, e2: bool, e3: bool, w: str) -> bool:
     """
@@ -304,6 +420,13 @@ def plan(tier):
         Cond('c20_step', budget=120 if tier == 'quick' else 600,
              bounds={'max_bytes': 'R[2, +inf)', 'backup_count': 'R[1,3]', 'pre-existing files': 'any subset of .1..3 with any sizes',
                      'active size': 'R[0, max_bytes)', 'len(w)': 'R[1, max_bytes)'}),
+        Cond('c20_bytes', budget=120,
+             bounds={'max_bytes': 'R: every integer > 9', 'writes': 'S: 4 writes of 1 or 3 repetitions of {ASCII letter, 3-byte character}'}),
+        Cond('c20_deep', budget=120,
+             bounds={'backup_count': 'S[8,12]', 'pre-existing backups': 'S[0,backup_count]', 'max_bytes': 'S{2,3}', 'writes': '15 of one character'}),
+        Cond('c20_timed_rotate', budget=120 if tier == 'quick' else 600,
+             bounds={'max_bytes': 'R: every integer larger than the longest line', 'backup_count': 'R[1,2]',
+                     'n0..n2': 'S: payload lengths from %r' % (TIMED_LENS,), 'time_format': '%H:%M:%S (prefix of 15 characters)'}),
         Cond('c20_prefix', shards=([{'pid': 4321, 'plen': 2, 'mlen': 1}, {'pid': 1, 'pid2': 4321, 'plen': 2, 'mlen': 1}]
                                    if tier == 'quick' else [{'pid': 4321}, {'pid': 1}, {'pid': 1, 'pid2': 4321}, {'pid': 4321, 'pid2': 4322}]),
              budget=120 if tier == 'quick' else 600,
